@@ -59,7 +59,7 @@ func TestC06(t *testing.T) {
 	if env.Thorough() {
 		reps = 20
 	}
-	rapidSetup(env.Pick(400, 8000), 6)
+	rapidSetup(env.Pick(400, 4000), 6)
 	rapid.Check(t, func(rt *rapid.T) {
 		prog := gogen.Generate(rt, gogen.FlowProfile(off))
 		files := map[string]string{"main.go": prog.Main, "prelude.go": gogen.AnalysedPrelude}
